@@ -181,7 +181,9 @@ type capture struct {
 	reason  string
 }
 
-func (c *capture) MessageAccepted(spectypes.BeaconRole, specqbft.Round) { c.verdict, c.reason = "accept", "" }
+func (c *capture) MessageAccepted(spectypes.BeaconRole, specqbft.Round) {
+	c.verdict, c.reason = "accept", ""
+}
 func (c *capture) MessageIgnored(reason string, _ spectypes.BeaconRole, _ specqbft.Round) {
 	c.verdict, c.reason = "ignore", reason
 }
